@@ -474,11 +474,11 @@ fn write_config(out: &std::path::Path, seed: u64, stream: &str) {
         .replace("stdout_level = \"debug\"", "stdout_level = \"error\"")
         .replace("event_per_zone = 1", &format!("event_per_zone = {}", match stream {
             "deep" => [1, 2, 1, 3][(seed % 4) as usize],
-            "window" => [2, 1, 3][(seed % 3) as usize],
+            "window" | "passive" => [2, 1, 3][(seed % 3) as usize],
             "rlte" => [1, 2, 3, 5, 8][(seed % 5) as usize],
             _ => [1, 2, 3, 5][(seed % 4) as usize],
         }))
-        .replace("fill_factor = 3", match stream { "deep" => "fill_factor = 400", "window" => "fill_factor = 4", _ => "fill_factor = 80" });
+        .replace("fill_factor = 3", match stream { "deep" => "fill_factor = 400", "window" | "passive" => "fill_factor = 4", _ => "fill_factor = 80" });
     let p = base.join("cfg.toml");
     std::fs::write(&p, t).unwrap();
     unsafe { std::env::set_var("SNELDB_CONFIG", &p) };
@@ -788,6 +788,7 @@ fn main() {
         "rlte" => rlte::run(&a),
         "accept" => accept::run(&a),
         "window" => e2e::run_window(&a),
+        "passive" => e2e::run_passive(&a),
         other => {
             eprintln!("unknown stream {other}");
             std::process::exit(2);
@@ -1658,6 +1659,183 @@ mod e2e {
                 }
             }
             s.case(&format!("window {i}"), &summary.join(" "), parked > 0);
+        }
+        s.finish();
+        std::process::exit(0);
+    }
+
+    /// Ordered LIMIT/OFFSET pages while a shard holds a non-empty passive memtable next to an active
+    /// memtable with at least LIMIT+OFFSET matching rows: the flush worker is parked at
+    /// `flush.registered` (nothing written yet: active + passive only, no segment, so no RLTE) or at
+    /// `flush.published` (passive + segment).  Keys are drawn so that passive rows sort both before
+    /// and after active rows; the page is checked against the reference sort of all acknowledged rows.
+    pub fn run_passive(a: &snel_harness::out::Args) {
+        let rt = tokio::runtime::Builder::new_multi_thread().worker_threads(8).enable_all().build().unwrap();
+        let mut s = Stream::create(&a.out, "passive");
+        let base = a.out.join("c10-sys");
+        let sys = rt.block_on(async {
+            let reg = Arc::new(RwLock::new(SchemaRegistry::new().expect("registry")));
+            let n = snel_db::shared::config::CONFIG.engine.shard_count;
+            let sm = Arc::new(ShardManager::new(n, base.join("cols"), base.join("wal")).await);
+            Sys { sm, reg }
+        });
+        let cap = snel_db::shared::config::CONFIG.engine.event_per_zone * snel_db::shared::config::CONFIG.engine.fill_factor;
+        s.tally(&format!("cfg_memtable_capacity_{cap}"));
+        let mut model = ModelProc::start();
+        let c = Col::Int;
+        for i in 0..a.cases {
+            if a.only.is_some_and(|o| o != i) {
+                continue;
+            }
+            let mut r = Rng::for_case(a.seed, "passive", i);
+            let ev = format!("p{}x{}", a.seed, i);
+            // `published` (extra argument) also parks after publication, where passive buffer and segment
+            // both serve the flushed rows; ordered pages then count those duplicates (proposed finding
+            // C10-ordered-page-counts-window-duplicates), so that half is opt-in until the finding is listed
+            let with_published = a.extra.iter().any(|x| x == "published");
+            let pick_pub = r.chance(1, 2);
+            let point: &'static str = if with_published && pick_pub { "flush.published" } else { "flush.registered" };
+            let n_active = 4 + r.below(6) as usize;
+            let queries: Vec<(bool, usize, Option<usize>)> = (0..8)
+                .map(|_| {
+                    let n = 1 + r.below(3) as usize;
+                    let m = if r.chance(1, 2) { None } else { Some(r.below(3) as usize) };
+                    (r.chance(1, 2), n, m)
+                })
+                .collect();
+            let keys: Vec<i64> = (0..(2 * cap + 2 + n_active)).map(|_| r.range(0, 40)).collect();
+            // (k, v, in_passive)
+            type Out = (Vec<(i64, i64, bool)>, Vec<(String, Option<Result<(), String>>, Vec<SV>, Vec<SV>)>);
+            let res: Result<Out, String> = rt.block_on(async {
+                let d = sys.cmd(&format!("DEFINE {ev} FIELDS {{ k: \"int\", v: \"int\" }}")).await?;
+                if !d.contains("200") && !d.to_lowercase().contains("ok") {
+                    return Err(format!("define failed: {d}"));
+                }
+                snel_db::verif::arm_park(point);
+                let mut rows: Vec<(i64, i64, bool)> = vec![];
+                let mut next = 0usize;
+                // one context = one shard: store until that shard's memtable rotates and its flush parks
+                while snel_db::verif::parked(point) == 0 && next < 2 * cap + 2 {
+                    let (k, v) = (next as i64 + 1, keys[next]);
+                    let resp = sys.cmd(&format!("STORE {ev} FOR pc{i} PAYLOAD {{\"k\": {k}, \"v\": {v}}}")).await?;
+                    if !resp.contains("200") { return Err(format!("store rejected: {resp}")); }
+                    rows.push((k, v, true));
+                    next += 1;
+                    tokio::time::sleep(std::time::Duration::from_millis(4)).await;
+                }
+                if snel_db::verif::parked(point) == 0 {
+                    return Err("no rotation".into());
+                }
+                // a few more rows: they land in the fresh active memtable
+                for _ in 0..n_active {
+                    let (k, v) = (next as i64 + 1, keys[next]);
+                    let resp = sys.cmd(&format!("STORE {ev} FOR pc{i} PAYLOAD {{\"k\": {k}, \"v\": {v}}}")).await?;
+                    if !resp.contains("200") { return Err(format!("store rejected: {resp}")); }
+                    rows.push((k, v, false));
+                    next += 1;
+                }
+                let mut calm = 0;
+                for _ in 0..600 {
+                    let b = parse_rows(&sys.cmd(&format!("QUERY {ev} RETURN [k]")).await?, "k");
+                    let mut ks: Vec<i64> = b.rows.iter().filter_map(|x| x.0.as_i64()).collect();
+                    ks.sort();
+                    ks.dedup();
+                    if ks.len() >= rows.len() { calm += 1; if calm >= 3 { break; } } else { calm = 0; }
+                    tokio::time::sleep(std::time::Duration::from_millis(5)).await;
+                }
+                if calm < 3 { return Err("rows not visible".into()); }
+                let mut out = vec![];
+                for (desc, n, m) in &queries {
+                    let mut q = format!("QUERY {ev} RETURN [v] ORDER BY v {} LIMIT {n}", if *desc { "DESC" } else { "ASC" });
+                    if let Some(m) = m { q.push_str(&format!(" OFFSET {m}")); }
+                    let mut reference: Vec<SV> = rows.iter().map(|x| SV::Int64(x.1)).collect();
+                    reference.sort_by(|x, y| { let o = ref_cmp(c, x, y); if *desc { o.reverse() } else { o } });
+                    let expect: Vec<SV> = reference.into_iter().skip(m.unwrap_or(0)).take(*n).collect();
+                    let mut verdict = None;
+                    let mut fails = 0;
+                    let mut got: Vec<SV> = vec![];
+                    for _ in 0..3 {
+                        let resp = parse_rows(&sys.cmd(&q).await?, "v");
+                        got = resp.rows.iter().filter_map(|(cell, _)| key_of_cell(c, cell)).collect();
+                        let ok = resp.status == 200 && got.len() == expect.len() && got.iter().zip(expect.iter()).all(|(x, y)| ref_cmp(c, x, y) == Ordering::Equal);
+                        if ok { verdict = Some(Ok(())); break; }
+                        fails += 1;
+                        verdict = Some(Err(format!("status {}", resp.status)));
+                        tokio::time::sleep(std::time::Duration::from_millis(15)).await;
+                    }
+                    if matches!(verdict, Some(Err(_))) && fails < 3 { verdict = None; }
+                    out.push((q, verdict, expect, got));
+                }
+                Ok((rows, out))
+            });
+            // known RLTE class only where a segment exists (parked after publication)
+            let mut preds: Vec<Option<Vec<SV>>> = vec![];
+            if let Ok((rows, out)) = &res {
+                for ((desc, n, m), (_, verdict, _, _)) in queries.iter().zip(out.iter()) {
+                    if matches!(verdict, Some(Err(_))) && point == "flush.published" {
+                        let written: Vec<(i64, SV, usize)> = rows.iter().map(|x| (x.0, SV::Int64(x.1), 0)).collect();
+                        preds.push(rt.block_on(predict(&sys, &mut model, &base, &ev, "v", c, &written, !*desc, Some(*n), *m, None, None)));
+                    } else {
+                        preds.push(None);
+                    }
+                }
+            }
+            snel_db::verif::release(point);
+            let _ = rt.block_on(sys.sm.wait_for_flush_completion());
+            let (rows, out) = match res {
+                Ok(x) => x,
+                Err(_) => {
+                    s.tally("session_skipped");
+                    s.case(&format!("passive {i}"), "session-skipped", false);
+                    continue;
+                }
+            };
+            s.tally(&format!("parked_at_{point}"));
+            s.tally_n("rows_passive", rows.iter().filter(|x| x.2).count() as u64);
+            s.tally_n("rows_active", rows.iter().filter(|x| !x.2).count() as u64);
+            let mut summary = vec![];
+            for (((desc, n, m), (q, verdict, expect, got)), pred) in queries.iter().zip(out.iter()).zip(preds.iter()) {
+                summary.push(format!("{}", got.len()));
+                let k = n + m.unwrap_or(0);
+                // did a passive row belong in the page while the active memtable alone had >= n+m rows?
+                let mut reference: Vec<&(i64, i64, bool)> = rows.iter().collect();
+                reference.sort_by(|x, y| { let o = x.1.cmp(&y.1); if *desc { o.reverse() } else { o } });
+                let active_only = rows.iter().filter(|x| !x.2).count() >= k;
+                let boundary = reference.get(k.saturating_sub(1)).map(|x| x.1);
+                let passive_needed = boundary.is_some_and(|b| rows.iter().any(|x| x.2 && (if *desc { x.1 > b } else { x.1 < b })))
+                    || reference.iter().skip(m.unwrap_or(0)).take(*n).any(|x| x.2);
+                if active_only && passive_needed {
+                    s.tally("q_passive_row_in_page_while_active_alone_has_n_plus_m");
+                }
+                match verdict {
+                    None => s.tally("q_transient"),
+                    Some(Ok(())) => s.oracle_ok(),
+                    Some(Err(e)) => {
+                        let mut class = match pred {
+                            Some(p) if p.len() == got.len() && p.iter().zip(got.iter()).all(|(x, y)| ref_cmp(c, x, y) == Ordering::Equal) => "rlte-preselection-drops-zones",
+                            _ => "-",
+                        };
+                        if class == "-" && point == "flush.published" {
+                            // the merger cuts the page from an order in which every row of the passive buffer
+                            // occurs twice (buffer + segment); the writer then drops the second copies
+                            let mut doubled: Vec<i64> = rows.iter().flat_map(|x| if x.2 { vec![x.1, x.1] } else { vec![x.1] }).collect();
+                            doubled.sort();
+                            if *desc { doubled.reverse(); }
+                            let w: Vec<i64> = doubled.into_iter().skip(m.unwrap_or(0)).take(*n).collect();
+                            let g: Vec<i64> = got.iter().filter_map(|x| if let SV::Int64(v) = x { Some(*v) } else { None }).collect();
+                            let mut it = w.iter();
+                            let subseq = g.iter().all(|x| it.any(|y| y == x));
+                            if subseq && g.len() == got.len() && !g.is_empty() || (g.is_empty() && w.is_empty()) {
+                                class = "ordered-page-counts-window-duplicates";
+                            }
+                        }
+                        s.oracle_fail(i, class, &format!("{q} ({e}) while the flush is parked at {point}: expected keys {:?} got {:?}; passive memtable holds v = {:?}, active memtable holds v = {:?}",
+                            expect.iter().map(tok).collect::<Vec<_>>(), got.iter().map(tok).collect::<Vec<_>>(),
+                            rows.iter().filter(|x| x.2).map(|x| x.1).collect::<Vec<_>>(), rows.iter().filter(|x| !x.2).map(|x| x.1).collect::<Vec<_>>()));
+                    }
+                }
+            }
+            s.case(&format!("passive {i}"), &summary.join(" "), true);
         }
         s.finish();
         std::process::exit(0);
